@@ -970,7 +970,7 @@ class FastSimulation(object):
                 prog.append("    %s = %s" % (result, expr))
             else:
                 mask = str(net.dests[0].bitmask)
-                prog.append('    %s = %s & %s' % (result, mask, expr))
+                prog.append('    %s = %s & (%s)' % (result, mask, expr))
 
         # add traced wires to dict
         if self.tracer is not None:
